@@ -8,6 +8,47 @@ import (
 	"strings"
 )
 
+// The step functions of the scanner (and every helper of package scanner they call) are
+// interpreted abstractly: the input byte is a set of bytes that conditions split, the
+// scanner's control fields (step, stepStack, finds, curIndex) are tracked as effects, and
+// everything else is an opaque value. The interpreter is a small general one: functions of
+// the package are inlined with their parameters bound to abstract values (a state function
+// handed over as an argument, a boolean computed by the caller, the input byte under another
+// name), helpers may return values (a step chosen by a switch, a (handled, error) pair),
+// locals are kept per execution frame.
+
+// vkind is the kind of an abstract value.
+type vkind uint8
+
+const (
+	vUnknown    vkind = iota // a data value without meaning for the machine
+	vNil                     // the nil constant
+	vBool                    // a known boolean (b)
+	vState                   // a step function (st)
+	vStepCur                 // the value of s.step
+	vPopped                  // the result of s.stepStack.Pop()
+	vEvent                   // a lexeme event constant (ev)
+	vByte                    // the current input byte
+	vConstByte               // a byte constant (kb)
+	vFunc                    // a named function of the package that is not a step (fn)
+	vErr                     // an error that was constructed: certainly non-nil
+	vLibErr                  // the error result of a library length call: may be nil
+	vLen                     // the length result of a library length call
+	vScanner                 // the scanner itself
+	vPos                     // s.curIndex - off
+	vRedispatch              // the result of s.step(s, c)
+)
+
+type val struct {
+	k   vkind
+	b   bool
+	st  int
+	ev  string
+	fn  *types.Func
+	off int
+	kb  byte
+}
+
 // frame is an abstract execution of a prefix of a function body.
 type frame struct {
 	set    ByteSet
@@ -15,76 +56,188 @@ type frame struct {
 	may    bool
 	guards []string
 	libErr bool // inside `if <lib error> != nil`
+	env    map[types.Object]val
 }
 
 func (f frame) with(set ByteSet, g string) frame {
-	n := frame{set: set, eff: append([]Effect(nil), f.eff...), may: f.may, guards: append([]string(nil), f.guards...), libErr: f.libErr}
+	n := frame{set: set, eff: append([]Effect(nil), f.eff...), may: f.may, guards: append([]string(nil), f.guards...), libErr: f.libErr, env: f.env}
 	if g != "" {
 		n.guards = append(n.guards, g)
 	}
 	return n
 }
 
-// fnctx is the lexical context of the function being interpreted.
+// bind returns a frame whose environment maps obj to v (environments are never mutated).
+func (f frame) bind(obj types.Object, v val) frame {
+	if obj == nil {
+		return f
+	}
+	ne := make(map[types.Object]val, len(f.env)+1)
+	for k, x := range f.env {
+		ne[k] = x
+	}
+	ne[obj] = v
+	n := f.with(f.set, "")
+	n.env = ne
+	return n
+}
+
+// result is one way a function activation returns.
+type result struct {
+	f    frame
+	vals []val
+	pos  token.Pos
+}
+
+// fnctx is the activation being interpreted.
 type fnctx struct {
-	fd      *ast.FuncDecl
-	cObj    types.Object // the byte parameter (nil when the function has none or it is blank)
-	sObj    types.Object // the *Scanner parameter / receiver
-	lenVars map[types.Object]bool
-	errVars map[types.Object]bool
-	depth   int
+	fd    *ast.FuncDecl
+	depth int
 }
 
 const maxInline = 12
 
-// evalFunc interprets fd for the bytes in set. prefix carries effects accumulated by
-// the caller when fd is inlined (return stateX(s, c)).
+// evalFunc interprets a step function for the bytes in set and renders its returns as paths.
 func (m *Machine) evalFunc(fd *ast.FuncDecl, set ByteSet, prefix *frame, inlined bool, why string) []Path {
+	start := frame{set: set}
+	if prefix != nil {
+		start = prefix.with(set, why)
+	}
+	args := []val{}
+	sig, _ := m.Pkg.TypesInfo.Defs[fd.Name].(*types.Func)
+	if sig != nil {
+		ps := sig.Type().(*types.Signature).Params()
+		for i := 0; i < ps.Len(); i++ {
+			t := ps.At(i).Type()
+			switch {
+			case isByte(t):
+				args = append(args, val{k: vByte})
+			case isScannerPtr(m, t):
+				args = append(args, val{k: vScanner})
+			default:
+				args = append(args, val{})
+			}
+		}
+	}
+	res := m.activate(fd, val{k: vScanner}, args, start, 0)
+	var out []Path
+	for _, r := range res {
+		if r.f.set.Empty() {
+			continue
+		}
+		out = append(out, m.toPath(fd, r))
+	}
+	return out
+}
+
+func isScannerPtr(m *Machine, t types.Type) bool {
+	p, ok := t.(*types.Pointer)
+	return ok && p.Elem() == m.scannerT
+}
+
+// toPath renders a return of a step function.
+func (m *Machine) toPath(fd *ast.FuncDecl, r result) Path {
+	out := OutNil
+	if len(r.vals) != 1 {
+		m.problem(r.pos, "return with %d results in a step function", len(r.vals))
+	} else {
+		switch r.vals[0].k {
+		case vNil:
+			out = OutNil
+		case vErr:
+			out = OutErr
+		case vLibErr:
+			if !r.f.libErr {
+				m.problem(r.pos, "library error variable returned outside its != nil guard")
+			}
+			out = OutErr
+		case vRedispatch:
+			out = OutRedispatch
+		default:
+			m.problem(r.pos, "a step function returns a value the interpreter cannot classify as nil, an error or a redispatch")
+		}
+	}
+	f := r.f
+	return Path{Set: f.set, Effects: f.eff, Out: out, May: f.may, Guards: strings.Join(f.guards, " & "), Pos: r.pos, LibErr: f.libErr && out == OutErr}
+}
+
+// activate interprets the body of fd with its receiver and parameters bound and returns
+// every way it returns. A function without results that runs off its end returns there.
+func (m *Machine) activate(fd *ast.FuncDecl, recv val, args []val, f frame, depth int) []result {
 	m.inlineDepth++
 	defer func() { m.inlineDepth-- }()
 	if m.inlineDepth > maxInline {
 		m.problem(fd.Pos(), "inlining depth exceeded at %s (recursive same-byte dispatch?)", fd.Name.Name)
 		return nil
 	}
-	ctx := &fnctx{fd: fd, lenVars: map[types.Object]bool{}, errVars: map[types.Object]bool{}}
 	info := m.Pkg.TypesInfo
+	// a fresh environment: the callee sees only its own parameters
+	callerEnv := f.env
+	f.env = nil
 	if fd.Recv != nil && len(fd.Recv.List) == 1 && len(fd.Recv.List[0].Names) == 1 {
-		ctx.sObj = info.ObjectOf(fd.Recv.List[0].Names[0])
+		f = f.bind(info.ObjectOf(fd.Recv.List[0].Names[0]), recv)
 	}
+	i := 0
 	for _, fl := range fd.Type.Params.List {
+		if len(fl.Names) == 0 {
+			i++
+			continue
+		}
 		for _, nm := range fl.Names {
-			obj := info.ObjectOf(nm)
-			if obj == nil {
-				continue
+			v := val{}
+			if i < len(args) {
+				v = args[i]
 			}
-			if isByte(obj.Type()) && nm.Name != "_" {
-				ctx.cObj = obj
+			if nm.Name != "_" {
+				f = f.bind(info.ObjectOf(nm), v)
 			}
-			if p, ok := obj.Type().(*types.Pointer); ok && p.Elem() == m.scannerT {
-				ctx.sObj = obj
+			i++
+		}
+	}
+	// named results start as zero values
+	if fd.Type.Results != nil {
+		for _, fl := range fd.Type.Results.List {
+			for _, nm := range fl.Names {
+				f = f.bind(info.ObjectOf(nm), m.zeroOf(info.TypeOf(fl.Type)))
 			}
 		}
 	}
-	start := frame{set: set}
-	if prefix != nil {
-		start = prefix.with(set, why)
-	}
-	fall, done := m.block(fd.Body.List, []frame{start}, ctx)
-	for _, f := range fall {
-		if !f.set.Empty() {
+	ctx := &fnctx{fd: fd, depth: depth}
+	fall, rets := m.block(fd.Body.List, []frame{f}, ctx)
+	for _, g := range fall {
+		if g.set.Empty() {
+			continue
+		}
+		if fd.Type.Results != nil && len(fd.Type.Results.List) > 0 {
 			m.problem(fd.End(), "%s: control falls off the end of the function", fd.Name.Name)
+			continue
 		}
+		rets = append(rets, result{f: g, pos: fd.End()})
 	}
-	return done
+	// back in the caller: its environment again
+	for k := range rets {
+		rets[k].f.env = callerEnv
+	}
+	return rets
 }
 
-func (m *Machine) finish(f frame, out Outcome, pos token.Pos) Path {
-	return Path{Set: f.set, Effects: f.eff, Out: out, May: f.may, Guards: strings.Join(f.guards, " & "), Pos: pos, LibErr: f.libErr && out == OutErr}
+func (m *Machine) zeroOf(t types.Type) val {
+	if t == nil {
+		return val{}
+	}
+	switch u := t.Underlying().(type) {
+	case *types.Basic:
+		if u.Info()&types.IsBoolean != 0 {
+			return val{k: vBool, b: false}
+		}
+	case *types.Pointer, *types.Signature, *types.Interface, *types.Map, *types.Slice:
+		return val{k: vNil}
+	}
+	return val{}
 }
 
-// block interprets statements in order. It returns the frames that fall through and
-// the completed paths.
-func (m *Machine) block(stmts []ast.Stmt, in []frame, ctx *fnctx) (fall []frame, done []Path) {
+// block interprets statements in order: the frames that fall through and the returns.
+func (m *Machine) block(stmts []ast.Stmt, in []frame, ctx *fnctx) (fall []frame, rets []result) {
 	cur := in
 	for _, st := range stmts {
 		var next []frame
@@ -92,40 +245,45 @@ func (m *Machine) block(stmts []ast.Stmt, in []frame, ctx *fnctx) (fall []frame,
 			if f.set.Empty() {
 				continue
 			}
-			fl, dn := m.stmt(st, f, ctx)
+			fl, rs := m.stmt(st, f, ctx)
 			next = append(next, fl...)
-			done = append(done, dn...)
+			rets = append(rets, rs...)
 		}
 		cur = next
 		if len(cur) == 0 {
 			break
 		}
 	}
-	return cur, done
+	return cur, rets
 }
 
-func (m *Machine) stmt(st ast.Stmt, f frame, ctx *fnctx) (fall []frame, done []Path) {
+func (m *Machine) stmt(st ast.Stmt, f frame, ctx *fnctx) (fall []frame, rets []result) {
 	info := m.Pkg.TypesInfo
 	switch s := st.(type) {
 	case *ast.ReturnStmt:
 		return nil, m.ret(s, f, ctx)
 
 	case *ast.ExprStmt:
-		call, ok := s.X.(*ast.CallExpr)
+		call, ok := ast.Unparen(s.X).(*ast.CallExpr)
 		if !ok {
 			m.problem(s.Pos(), "unsupported expression statement")
 			return []frame{f}, nil
 		}
-		if !m.callEffect(call, &f, ctx) {
-			m.problem(s.Pos(), "unsupported call statement %s", types.ExprString(call.Fun))
+		for _, r := range m.call(call, f, ctx) {
+			fall = append(fall, r.f)
 		}
-		return []frame{f}, nil
+		return fall, nil
 
 	case *ast.IncDecStmt:
-		if m.isField(s.X, ctx, m.curField) && s.Tok == token.DEC {
+		if m.isCurIndex(s.X, f) && s.Tok == token.DEC {
 			f.eff = append(f.eff, Effect{Kind: ERewind, Off: 1, Pos: s.Pos()})
 			m.Counts["rewind"]++
 			return []frame{f}, nil
+		}
+		if id, ok := ast.Unparen(s.X).(*ast.Ident); ok {
+			if _, isLocal := f.env[info.ObjectOf(id)]; isLocal || info.ObjectOf(id) != nil && info.ObjectOf(id).Parent() != m.Pkg.Types.Scope() {
+				return []frame{f.bind(info.ObjectOf(id), val{})}, nil
+			}
 		}
 		m.problem(s.Pos(), "unsupported inc/dec statement")
 		return []frame{f}, nil
@@ -134,42 +292,47 @@ func (m *Machine) stmt(st ast.Stmt, f frame, ctx *fnctx) (fall []frame, done []P
 		return m.assign(s, f, ctx), nil
 
 	case *ast.IfStmt:
+		cur := []frame{f}
 		if s.Init != nil {
-			fl, dn := m.stmt(s.Init, f, ctx)
-			if len(dn) != 0 || len(fl) != 1 {
+			fl, rs := m.stmt(s.Init, f, ctx)
+			if len(rs) != 0 {
 				m.problem(s.Pos(), "unsupported if-init")
-				return nil, dn
+				return nil, rs
 			}
-			f = fl[0]
+			cur = fl
 		}
-		tfs, ffs := m.cond(s.Cond, f, ctx)
-		var out []frame
-		for _, tf := range tfs {
-			if tf.set.Empty() {
+		for _, g := range cur {
+			if g.set.Empty() {
 				continue
 			}
-			fl, dn := m.block(s.Body.List, []frame{tf}, ctx)
-			out = append(out, fl...)
-			done = append(done, dn...)
-		}
-		for _, ff := range ffs {
-			if ff.set.Empty() {
-				continue
+			tfs, ffs := m.cond(s.Cond, g, ctx)
+			for _, tf := range tfs {
+				if tf.set.Empty() {
+					continue
+				}
+				fl, rs := m.block(s.Body.List, []frame{tf}, ctx)
+				fall = append(fall, fl...)
+				rets = append(rets, rs...)
 			}
-			switch e := s.Else.(type) {
-			case nil:
-				out = append(out, ff)
-			case *ast.BlockStmt:
-				fl, dn := m.block(e.List, []frame{ff}, ctx)
-				out = append(out, fl...)
-				done = append(done, dn...)
-			case *ast.IfStmt:
-				fl, dn := m.stmt(e, ff, ctx)
-				out = append(out, fl...)
-				done = append(done, dn...)
+			for _, ff := range ffs {
+				if ff.set.Empty() {
+					continue
+				}
+				switch e := s.Else.(type) {
+				case nil:
+					fall = append(fall, ff)
+				case *ast.BlockStmt:
+					fl, rs := m.block(e.List, []frame{ff}, ctx)
+					fall = append(fall, fl...)
+					rets = append(rets, rs...)
+				case *ast.IfStmt:
+					fl, rs := m.stmt(e, ff, ctx)
+					fall = append(fall, fl...)
+					rets = append(rets, rs...)
+				}
 			}
 		}
-		return out, done
+		return fall, rets
 
 	case *ast.SwitchStmt:
 		if s.Init != nil {
@@ -179,12 +342,18 @@ func (m *Machine) stmt(st ast.Stmt, f frame, ctx *fnctx) (fall []frame, done []P
 		if s.Tag == nil {
 			return m.taglessSwitch(s, f, ctx)
 		}
-		id, ok := ast.Unparen(s.Tag).(*ast.Ident)
-		if !ok || ctx.cObj == nil || info.ObjectOf(id) != ctx.cObj {
-			m.problem(s.Pos(), "switch on something other than the input byte")
-			return []frame{f}, nil
+		var outF []frame
+		for _, tv := range m.expr(s.Tag, f, ctx) {
+			if tv.v.k != vByte {
+				m.problem(s.Pos(), "switch on something other than the input byte")
+				outF = append(outF, tv.f)
+				continue
+			}
+			fl, rs := m.byteSwitch(s, tv.f, ctx)
+			outF = append(outF, fl...)
+			rets = append(rets, rs...)
 		}
-		return m.byteSwitch(s, f, ctx)
+		return outF, rets
 
 	case *ast.BlockStmt:
 		return m.block(s.List, []frame{f}, ctx)
@@ -193,80 +362,409 @@ func (m *Machine) stmt(st ast.Stmt, f frame, ctx *fnctx) (fall []frame, done []P
 		return []frame{f}, nil
 
 	case *ast.DeclStmt:
-		// `var msg string` style declarations have no effect on the machine
-		return []frame{f}, nil
+		gd, ok := s.Decl.(*ast.GenDecl)
+		if !ok || gd.Tok != token.VAR {
+			return []frame{f}, nil
+		}
+		cur := []frame{f}
+		for _, sp := range gd.Specs {
+			vs, ok := sp.(*ast.ValueSpec)
+			if !ok {
+				continue
+			}
+			for k, nm := range vs.Names {
+				var next []frame
+				for _, g := range cur {
+					if k < len(vs.Values) {
+						for _, ev := range m.expr(vs.Values[k], g, ctx) {
+							next = append(next, ev.f.bind(info.ObjectOf(nm), ev.v))
+						}
+					} else {
+						next = append(next, g.bind(info.ObjectOf(nm), m.zeroOf(info.TypeOf(nm))))
+					}
+				}
+				cur = next
+			}
+		}
+		return cur, nil
 	}
 	m.problem(st.Pos(), "unsupported statement %T in a step function", st)
 	return []frame{f}, nil
 }
 
-func (m *Machine) isField(e ast.Expr, ctx *fnctx, field *types.Var) bool {
+// isCurIndex: e is <scanner>.curIndex
+func (m *Machine) isCurIndex(e ast.Expr, f frame) bool { return m.isFieldOfS(e, f, m.curField) }
+
+func (m *Machine) isFieldOfS(e ast.Expr, f frame, field *types.Var) bool {
 	sel, ok := ast.Unparen(e).(*ast.SelectorExpr)
-	if !ok {
-		return false
-	}
-	if m.Pkg.TypesInfo.ObjectOf(sel.Sel) != field {
+	if !ok || m.Pkg.TypesInfo.ObjectOf(sel.Sel) != field {
 		return false
 	}
 	id, ok := ast.Unparen(sel.X).(*ast.Ident)
-	return ok && ctx.sObj != nil && m.Pkg.TypesInfo.ObjectOf(id) == ctx.sObj
+	return ok && f.env[m.Pkg.TypesInfo.ObjectOf(id)].k == vScanner
 }
 
-// curMinus recognises s.curIndex (k=0) and s.curIndex-K.
-func (m *Machine) curMinus(e ast.Expr, ctx *fnctx) (int, bool) {
-	e = ast.Unparen(e)
-	if m.isField(e, ctx, m.curField) {
-		return 0, true
+func (m *Machine) constInt(e ast.Expr) (int, bool) {
+	if k, ok := m.constByte(e); ok {
+		return int(k), true
 	}
-	if be, ok := e.(*ast.BinaryExpr); ok && be.Op == token.SUB && m.isField(be.X, ctx, m.curField) {
-		if k, ok := m.constByte(be.Y); ok {
-			return int(k), true
+	return 0, false
+}
+
+type exprVal struct {
+	f frame
+	v val
+}
+
+// expr evaluates an expression; a call inside it may split the frame and add effects.
+func (m *Machine) expr(e ast.Expr, f frame, ctx *fnctx) []exprVal {
+	info := m.Pkg.TypesInfo
+	e = ast.Unparen(e)
+	one := func(v val) []exprVal { return []exprVal{{f, v}} }
+	switch x := e.(type) {
+	case *ast.Ident:
+		obj := info.ObjectOf(x)
+		if v, ok := f.env[obj]; ok {
+			return one(v)
+		}
+		switch x.Name {
+		case "nil":
+			if obj == types.Universe.Lookup("nil") {
+				return one(val{k: vNil})
+			}
+		case "true", "false":
+			if obj == types.Universe.Lookup(x.Name) {
+				return one(val{k: vBool, b: x.Name == "true"})
+			}
+		}
+		if fo, ok := obj.(*types.Func); ok {
+			if sid, isState := m.ByObj[fo]; isState {
+				return one(val{k: vState, st: sid})
+			}
+			return one(val{k: vFunc, fn: fo})
+		}
+		if ev, ok := m.eventConst(x); ok {
+			return one(val{k: vEvent, ev: ev})
+		}
+		if k, ok := m.constByte(x); ok {
+			return one(val{k: vConstByte, kb: k})
+		}
+		return one(val{})
+	case *ast.BasicLit:
+		if k, ok := m.constByte(x); ok {
+			return one(val{k: vConstByte, kb: k})
+		}
+		return one(val{})
+	case *ast.SelectorExpr:
+		if m.isFieldOfS(x, f, m.stepField) {
+			return one(val{k: vStepCur})
+		}
+		if m.isFieldOfS(x, f, m.curField) {
+			return one(val{k: vPos, off: 0})
+		}
+		// a method value / qualified function
+		if fo, ok := info.ObjectOf(x.Sel).(*types.Func); ok {
+			if sid, isState := m.ByObj[fo]; isState {
+				return one(val{k: vState, st: sid})
+			}
+			return one(val{k: vFunc, fn: fo})
+		}
+		if k, ok := m.constByte(x); ok {
+			return one(val{k: vConstByte, kb: k})
+		}
+		return one(val{})
+	case *ast.UnaryExpr:
+		if x.Op == token.NOT {
+			var out []exprVal
+			for _, ev := range m.expr(x.X, f, ctx) {
+				v := ev.v
+				if v.k == vBool {
+					v.b = !v.b
+				} else {
+					v = val{}
+				}
+				out = append(out, exprVal{ev.f, v})
+			}
+			return out
+		}
+		return one(val{})
+	case *ast.BinaryExpr:
+		if x.Op == token.SUB {
+			var out []exprVal
+			for _, ev := range m.expr(x.X, f, ctx) {
+				v := val{}
+				if k, ok := m.constInt(x.Y); ok && ev.v.k == vPos {
+					v = val{k: vPos, off: ev.v.off + k}
+				}
+				out = append(out, exprVal{ev.f, v})
+			}
+			return out
+		}
+		return one(val{})
+	case *ast.CallExpr:
+		// conversion
+		if tv, ok := info.Types[x.Fun]; ok && tv.IsType() && len(x.Args) == 1 {
+			return m.expr(x.Args[0], f, ctx)
+		}
+		var out []exprVal
+		for _, r := range m.call(x, f, ctx) {
+			v := val{}
+			if len(r.vals) >= 1 {
+				v = r.vals[0]
+			}
+			out = append(out, exprVal{r.f, v})
+		}
+		return out
+	}
+	return one(val{})
+}
+
+// call evaluates a call: the scanner's own primitives become effects, functions of the
+// package are inlined, anything else yields opaque values.
+func (m *Machine) call(call *ast.CallExpr, f frame, ctx *fnctx) []result {
+	info := m.Pkg.TypesInfo
+	pos := call.Pos()
+	// s.step(s, c): dynamic same-byte redispatch
+	if m.isFieldOfS(call.Fun, f, m.stepField) {
+		if !m.argsAreSC(call, f, ctx) {
+			m.problem(pos, "s.step called with unexpected arguments")
+		}
+		m.Counts["redispatch-dynamic"]++
+		return []result{{f: f, vals: []val{{k: vRedispatch}}, pos: pos}}
+	}
+	var callee *types.Func
+	// a call through a local that holds a function
+	if id, ok := ast.Unparen(call.Fun).(*ast.Ident); ok {
+		if v, bound := f.env[info.ObjectOf(id)]; bound {
+			switch v.k {
+			case vState:
+				// `s.step = x; return x(s, c)` through a step-valued variable is the
+				// dynamic dispatch `s.step(s, c)` spelled differently
+				if last, ok := lastGoto(f); ok && last == v.st && m.argsAreSC(call, f, ctx) {
+					m.Counts["redispatch-dynamic"]++
+					return []result{{f: f, vals: []val{{k: vRedispatch}}, pos: pos}}
+				}
+				callee = m.States[v.st].Obj
+			case vFunc:
+				callee = v.fn
+			default:
+				m.problem(pos, "return of a call through an unresolved function value")
+				return []result{{f: f, vals: m.opaqueResults(info.TypeOf(call)), pos: pos}}
+			}
+		}
+	}
+	if callee == nil {
+		callee = m.callee(call)
+	}
+	if callee == nil {
+		m.problem(pos, "return of a call through an unresolved function value")
+		return []result{{f: f, vals: m.opaqueResults(info.TypeOf(call)), pos: pos}}
+	}
+	recvExpr := func() ast.Expr {
+		if sel, ok := ast.Unparen(call.Fun).(*ast.SelectorExpr); ok {
+			return sel.X
+		}
+		return nil
+	}
+	switch callee {
+	case m.found:
+		var out []result
+		for _, ev := range m.expr(call.Args[0], f, ctx) {
+			g := ev.f
+			if ev.v.k != vEvent {
+				m.problem(pos, "unsupported call statement %s", types.ExprString(call.Fun))
+			} else {
+				g.eff = append(g.eff, Effect{Kind: EEvent, Ev: ev.v.ev, Off: 0, Pos: pos})
+				m.Counts["event"]++
+			}
+			out = append(out, result{f: g, pos: pos})
+		}
+		return out
+	case m.foundAt:
+		var out []result
+		for _, pv := range m.expr(call.Args[0], f, ctx) {
+			for _, ev := range m.expr(call.Args[1], pv.f, ctx) {
+				g := ev.f
+				if pv.v.k != vPos || ev.v.k != vEvent {
+					m.problem(pos, "unsupported call statement %s", types.ExprString(call.Fun))
+				} else {
+					g.eff = append(g.eff, Effect{Kind: EEvent, Ev: ev.v.ev, Off: pv.v.off, Pos: pos})
+					m.Counts["event"]++
+				}
+				out = append(out, result{f: g, pos: pos})
+			}
+		}
+		return out
+	case m.push:
+		if r := recvExpr(); r == nil || !m.isFieldOfS(r, f, m.stackField) {
+			break
+		}
+		var out []result
+		for _, ev := range m.expr(call.Args[0], f, ctx) {
+			g := ev.f
+			switch ev.v.k {
+			case vState:
+				g.eff = append(g.eff, Effect{Kind: EPush, Fn: ev.v.st, Pos: pos})
+				m.Counts["push"]++
+			case vStepCur:
+				g.eff = append(g.eff, Effect{Kind: EPushCur, Pos: pos})
+				m.Counts["push"]++
+			default:
+				m.problem(pos, "unsupported call statement %s", types.ExprString(call.Fun))
+			}
+			out = append(out, result{f: g, pos: pos})
+		}
+		return out
+	case m.pop:
+		if r := recvExpr(); r != nil && m.isFieldOfS(r, f, m.stackField) {
+			return []result{{f: f, vals: []val{{k: vPopped}}, pos: pos}}
+		}
+	}
+	if m.isErrorOnly(callee) {
+		return []result{{f: f, vals: []val{{k: vErr}}, pos: pos}}
+	}
+	if m.isLibLen(callee) {
+		g := f.with(f.set, "")
+		g.eff = append(g.eff, Effect{Kind: ELibLen, Pos: pos})
+		m.Counts["liblen"]++
+		return []result{{f: g, vals: []val{{k: vLen}, {k: vLibErr}}, pos: pos}}
+	}
+	fd := m.Prog.Decl(callee)
+	if fd == nil || callee.Pkg() != m.Pkg.Types {
+		// outside the package: opaque data
+		return []result{{f: f, vals: m.opaqueResults(info.TypeOf(call)), pos: pos}}
+	}
+	// a pure bool method used as a predicate is opaque (data-dependent)
+	if m.isOpaquePredicate(callee, call, f) {
+		m.OpaquePreds[callee.Name()]++
+		m.FuncsSeen[callee.Name()] = true
+		return []result{{f: f, vals: []val{{}}, pos: pos}}
+	}
+	// inline: evaluate the arguments left to right
+	type partial struct {
+		f    frame
+		args []val
+	}
+	parts := []partial{{f: f}}
+	for _, a := range call.Args {
+		var next []partial
+		for _, p := range parts {
+			for _, ev := range m.expr(a, p.f, ctx) {
+				next = append(next, partial{f: ev.f, args: append(append([]val(nil), p.args...), ev.v)})
+			}
+		}
+		parts = next
+	}
+	recv := val{}
+	if r := recvExpr(); r != nil {
+		if rv := m.expr(r, f, ctx); len(rv) == 1 {
+			recv = rv[0].v
+		}
+	}
+	sid, isState := m.ByObj[callee]
+	var out []result
+	for _, p := range parts {
+		if isState {
+			// a step called directly: it must receive the scanner and the current byte
+			if len(p.args) != 2 || p.args[0].k != vScanner || p.args[1].k != vByte {
+				m.problem(pos, "call to %s passes a byte other than the current input byte", callee.Name())
+				continue
+			}
+			m.Counts["redispatch-static"]++
+			if m.curState != nil {
+				dup := false
+				for _, x := range m.curState.Inlines {
+					dup = dup || x == sid
+				}
+				if !dup {
+					m.curState.Inlines = append(m.curState.Inlines, sid)
+				}
+			}
+		}
+		m.FuncsSeen[callee.Name()] = true
+		g := p.f.with(p.f.set, "→"+callee.Name())
+		out = append(out, m.activate(fd, recv, p.args, g, ctx.depth+1)...)
+	}
+	return out
+}
+
+// lastGoto: the state the frame last assigned to s.step, if that is its latest control effect.
+func lastGoto(f frame) (int, bool) {
+	for i := len(f.eff) - 1; i >= 0; i-- {
+		switch f.eff[i].Kind {
+		case EGoto:
+			return f.eff[i].Fn, true
+		case EPopGoto:
+			return 0, false
 		}
 	}
 	return 0, false
 }
 
-func (m *Machine) stateOf(e ast.Expr) (int, bool) {
-	id, ok := ast.Unparen(e).(*ast.Ident)
-	if !ok {
-		return 0, false
+func (m *Machine) opaqueResults(t types.Type) []val {
+	if tup, ok := t.(*types.Tuple); ok {
+		return make([]val, tup.Len())
 	}
-	fo, ok := m.Pkg.TypesInfo.ObjectOf(id).(*types.Func)
-	if !ok {
-		return 0, false
-	}
-	sid, ok := m.ByObj[fo]
-	return sid, ok
+	return []val{{}}
 }
 
-func (m *Machine) isPopCall(e ast.Expr, ctx *fnctx) bool {
-	call, ok := ast.Unparen(e).(*ast.CallExpr)
-	if !ok || m.callee(call) != m.pop {
+// argsAreSC: the arguments are the scanner and the current input byte.
+func (m *Machine) argsAreSC(call *ast.CallExpr, f frame, ctx *fnctx) bool {
+	if len(call.Args) != 2 {
 		return false
 	}
-	sel, ok := call.Fun.(*ast.SelectorExpr)
-	return ok && m.isField(sel.X, ctx, m.stackField)
+	a := m.expr(call.Args[0], f, ctx)
+	b := m.expr(call.Args[1], f, ctx)
+	return len(a) == 1 && len(b) == 1 && a[0].v.k == vScanner && b[0].v.k == vByte
+}
+
+// isOpaquePredicate: a bool method of the scanner without parameters that does not touch
+// the machine - its answer depends on the data, not on the control state.
+func (m *Machine) isOpaquePredicate(callee *types.Func, call *ast.CallExpr, f frame) bool {
+	sig := callee.Type().(*types.Signature)
+	if sig.Recv() == nil || recvNamed(callee) != m.scannerT || sig.Params().Len() != 0 || sig.Results().Len() != 1 {
+		return false
+	}
+	b, ok := sig.Results().At(0).Type().Underlying().(*types.Basic)
+	if !ok || b.Kind() != types.Bool {
+		return false
+	}
+	sel, ok := ast.Unparen(call.Fun).(*ast.SelectorExpr)
+	if !ok {
+		return false
+	}
+	id, ok := ast.Unparen(sel.X).(*ast.Ident)
+	if !ok || f.env[m.Pkg.TypesInfo.ObjectOf(id)].k != vScanner {
+		return false
+	}
+	return m.isPureMethod(callee)
 }
 
 func (m *Machine) assign(s *ast.AssignStmt, f frame, ctx *fnctx) []frame {
 	info := m.Pkg.TypesInfo
-	// s.step = X | s.step = s.stepStack.Pop()
-	if len(s.Lhs) == 1 && len(s.Rhs) == 1 && s.Tok == token.ASSIGN && m.isField(s.Lhs[0], ctx, m.stepField) {
-		if sid, ok := m.stateOf(s.Rhs[0]); ok {
-			f.eff = append(f.eff, Effect{Kind: EGoto, Fn: sid, Pos: s.Pos()})
-			m.Counts["goto"]++
-			return []frame{f}
+	// s.step = X
+	if len(s.Lhs) == 1 && len(s.Rhs) == 1 && s.Tok == token.ASSIGN && m.isFieldOfS(s.Lhs[0], f, m.stepField) {
+		var out []frame
+		for _, ev := range m.expr(s.Rhs[0], f, ctx) {
+			g := ev.f
+			switch ev.v.k {
+			case vState:
+				g.eff = append(g.eff, Effect{Kind: EGoto, Fn: ev.v.st, Pos: s.Pos()})
+				m.Counts["goto"]++
+			case vPopped:
+				g.eff = append(g.eff, Effect{Kind: EPopGoto, Pos: s.Pos()})
+				m.Counts["pop"]++
+			case vStepCur:
+				// s.step = s.step
+			default:
+				m.problem(s.Pos(), "s.step assigned from an expression that is neither a state nor stepStack.Pop()")
+			}
+			out = append(out, g)
 		}
-		if m.isPopCall(s.Rhs[0], ctx) {
-			f.eff = append(f.eff, Effect{Kind: EPopGoto, Pos: s.Pos()})
-			m.Counts["pop"]++
-			return []frame{f}
-		}
-		m.problem(s.Pos(), "s.step assigned from an expression that is neither a state nor stepStack.Pop()")
-		return []frame{f}
+		return out
 	}
 	// s.curIndex -= K  /  s.curIndex += Index(len - 1)
-	if len(s.Lhs) == 1 && len(s.Rhs) == 1 && m.isField(s.Lhs[0], ctx, m.curField) {
+	if len(s.Lhs) == 1 && len(s.Rhs) == 1 && m.isCurIndex(s.Lhs[0], f) {
 		switch s.Tok {
 		case token.SUB_ASSIGN:
 			if k, ok := m.constByte(s.Rhs[0]); ok {
@@ -275,8 +773,7 @@ func (m *Machine) assign(s *ast.AssignStmt, f frame, ctx *fnctx) []frame {
 				return []frame{f}
 			}
 		case token.ADD_ASSIGN:
-			// Index(v - 1) with v a library length variable, inside `if v > 0`
-			if m.isLenMinusOne(s.Rhs[0], ctx) {
+			if m.isLenMinusOne(s.Rhs[0], f) {
 				f.eff = append(f.eff, Effect{Kind: EJump, Pos: s.Pos()})
 				m.Counts["jump"]++
 				return []frame{f}
@@ -285,30 +782,79 @@ func (m *Machine) assign(s *ast.AssignStmt, f frame, ctx *fnctx) []frame {
 		m.problem(s.Pos(), "unsupported write to the read position")
 		return []frame{f}
 	}
-	// v, je := s.readXWithJsc()
-	if len(s.Lhs) == 2 && len(s.Rhs) == 1 && s.Tok == token.DEFINE {
-		if call, ok := s.Rhs[0].(*ast.CallExpr); ok {
-			if callee := m.callee(call); callee != nil && m.isLibLen(callee) {
-				if a, ok := s.Lhs[0].(*ast.Ident); ok {
-					ctx.lenVars[info.ObjectOf(a)] = true
-				}
-				if b, ok := s.Lhs[1].(*ast.Ident); ok {
-					ctx.errVars[info.ObjectOf(b)] = true
-				}
-				f.eff = append(f.eff, Effect{Kind: ELibLen, Pos: s.Pos()})
-				m.Counts["liblen"]++
+	// writes to other fields of the scanner are outside the model
+	for _, l := range s.Lhs {
+		if sel, ok := ast.Unparen(l).(*ast.SelectorExpr); ok {
+			if id, ok := ast.Unparen(sel.X).(*ast.Ident); ok && f.env[info.ObjectOf(id)].k == vScanner {
+				m.problem(s.Pos(), "unsupported assignment in a step function: %s", types.ExprString(l))
 				return []frame{f}
 			}
 		}
 	}
-	m.problem(s.Pos(), "unsupported assignment in a step function: %s", types.ExprString(s.Lhs[0]))
-	return []frame{f}
+	// locals:  a, b := call(...)   /   x := e, y := e2   /  x = e
+	lhsObj := func(e ast.Expr) types.Object {
+		if id, ok := ast.Unparen(e).(*ast.Ident); ok && id.Name != "_" {
+			return info.ObjectOf(id)
+		}
+		return nil
+	}
+	for _, l := range s.Lhs {
+		if _, ok := ast.Unparen(l).(*ast.Ident); !ok {
+			m.problem(s.Pos(), "unsupported assignment in a step function: %s", types.ExprString(l))
+			return []frame{f}
+		}
+	}
+	if s.Tok != token.DEFINE && s.Tok != token.ASSIGN {
+		// op-assign on a local: the value becomes opaque
+		if o := lhsObj(s.Lhs[0]); o != nil {
+			return []frame{f.bind(o, val{})}
+		}
+		return []frame{f}
+	}
+	if len(s.Rhs) == 1 && len(s.Lhs) > 1 {
+		call, ok := ast.Unparen(s.Rhs[0]).(*ast.CallExpr)
+		if !ok {
+			// v, ok := m[k] / x.(T): opaque
+			g := f
+			for _, l := range s.Lhs {
+				g = g.bind(lhsObj(l), val{})
+			}
+			return []frame{g}
+		}
+		var out []frame
+		for _, r := range m.call(call, f, ctx) {
+			g := r.f
+			for i, l := range s.Lhs {
+				v := val{}
+				if i < len(r.vals) {
+					v = r.vals[i]
+				}
+				g = g.bind(lhsObj(l), v)
+			}
+			out = append(out, g)
+		}
+		return out
+	}
+	cur := []frame{f}
+	for i, l := range s.Lhs {
+		if i >= len(s.Rhs) {
+			break
+		}
+		var next []frame
+		for _, g := range cur {
+			for _, ev := range m.expr(s.Rhs[i], g, ctx) {
+				next = append(next, ev.f.bind(lhsObj(l), ev.v))
+			}
+		}
+		cur = next
+	}
+	return cur
 }
 
-func (m *Machine) isLenMinusOne(e ast.Expr, ctx *fnctx) bool {
+// isLenMinusOne: Index(v - 1) with v a library length.
+func (m *Machine) isLenMinusOne(e ast.Expr, f frame) bool {
 	e = ast.Unparen(e)
 	if call, ok := e.(*ast.CallExpr); ok && len(call.Args) == 1 {
-		// conversion
 		if tv, ok := m.Pkg.TypesInfo.Types[call.Fun]; ok && tv.IsType() {
 			e = ast.Unparen(call.Args[0])
 		}
@@ -318,37 +864,389 @@ func (m *Machine) isLenMinusOne(e ast.Expr, ctx *fnctx) bool {
 		return false
 	}
 	id, ok := ast.Unparen(be.X).(*ast.Ident)
-	if !ok || !ctx.lenVars[m.Pkg.TypesInfo.ObjectOf(id)] {
+	if !ok || f.env[m.Pkg.TypesInfo.ObjectOf(id)].k != vLen {
 		return false
 	}
 	k, ok := m.constByte(be.Y)
 	return ok && k == 1
 }
 
-// isLibLen: a Scanner method returning (uint, *JApiError) that does not touch the
-// machine (no step/stack/finds/curIndex writes): it asks the schema library for the
-// length of the value starting at the read position.
+// ret interprets a return statement.
+func (m *Machine) ret(s *ast.ReturnStmt, f frame, ctx *fnctx) []result {
+	info := m.Pkg.TypesInfo
+	if len(s.Results) == 0 {
+		// a bare return: the named results, if any
+		var vals []val
+		if ctx.fd.Type.Results != nil {
+			for _, fl := range ctx.fd.Type.Results.List {
+				for _, nm := range fl.Names {
+					vals = append(vals, f.env[info.ObjectOf(nm)])
+				}
+			}
+		}
+		return []result{{f: f, vals: vals, pos: s.Pos()}}
+	}
+	// return f(...) handing on all the results of one call
+	if len(s.Results) == 1 {
+		if call, ok := ast.Unparen(s.Results[0]).(*ast.CallExpr); ok {
+			if tv, isConv := info.Types[call.Fun]; !isConv || !tv.IsType() {
+				rs := m.call(call, f, ctx)
+				for i := range rs {
+					rs[i].pos = s.Pos()
+				}
+				return rs
+			}
+		}
+	}
+	type partial struct {
+		f    frame
+		vals []val
+	}
+	parts := []partial{{f: f}}
+	for _, e := range s.Results {
+		var next []partial
+		for _, p := range parts {
+			// a boolean expression in value position
+			if t := info.TypeOf(e); t != nil {
+				if b, ok := t.Underlying().(*types.Basic); ok && b.Info()&types.IsBoolean != 0 {
+					if _, isIdent := ast.Unparen(e).(*ast.Ident); !isIdent {
+						tf, ff := m.cond(e, p.f, ctx)
+						for _, g := range tf {
+							next = append(next, partial{g, append(append([]val(nil), p.vals...), val{k: vBool, b: true})})
+						}
+						for _, g := range ff {
+							next = append(next, partial{g, append(append([]val(nil), p.vals...), val{k: vBool, b: false})})
+						}
+						continue
+					}
+				}
+			}
+			for _, ev := range m.expr(e, p.f, ctx) {
+				next = append(next, partial{ev.f, append(append([]val(nil), p.vals...), ev.v)})
+			}
+		}
+		parts = next
+	}
+	var out []result
+	for _, p := range parts {
+		if !p.f.set.Empty() {
+			out = append(out, result{f: p.f, vals: p.vals, pos: s.Pos()})
+		}
+	}
+	return out
+}
+
+// ---------------------------------------------------------------- conditions
+
+// cond splits frame f on a boolean expression into the frames where it is true and
+// those where it is false (several each, because && and || short-circuit and because a
+// helper called inside the condition may itself branch).
+func (m *Machine) cond(e ast.Expr, f frame, ctx *fnctx) (tf, ff []frame) {
+	info := m.Pkg.TypesInfo
+	e = ast.Unparen(e)
+	desc := types.ExprString(e)
+	opaque := func(g frame) ([]frame, []frame) {
+		a := g.with(g.set, desc)
+		a.may = true
+		b := g.with(g.set, "!("+desc+")")
+		b.may = true
+		return []frame{a}, []frame{b}
+	}
+	isByteVar := func(x ast.Expr, g frame) bool {
+		id, ok := ast.Unparen(x).(*ast.Ident)
+		return ok && g.env[info.ObjectOf(id)].k == vByte
+	}
+	byValue := func(x ast.Expr, g frame) (t, fl []frame) {
+		for _, ev := range m.expr(x, g, ctx) {
+			switch {
+			case ev.v.k == vBool && ev.v.b:
+				t = append(t, ev.f)
+			case ev.v.k == vBool:
+				fl = append(fl, ev.f)
+			default:
+				a, b := opaque(ev.f)
+				t = append(t, a...)
+				fl = append(fl, b...)
+			}
+		}
+		return
+	}
+	switch x := e.(type) {
+	case *ast.UnaryExpr:
+		if x.Op == token.NOT {
+			a, b := m.cond(x.X, f, ctx)
+			return b, a
+		}
+	case *ast.BinaryExpr:
+		switch x.Op {
+		case token.LAND:
+			t1, f1 := m.cond(x.X, f, ctx)
+			ff = append(ff, f1...)
+			for _, g := range t1 {
+				if g.set.Empty() {
+					continue
+				}
+				t2, f2 := m.cond(x.Y, g, ctx)
+				tf = append(tf, t2...)
+				ff = append(ff, f2...)
+			}
+			return tf, ff
+		case token.LOR:
+			t1, f1 := m.cond(x.X, f, ctx)
+			tf = append(tf, t1...)
+			for _, g := range f1 {
+				if g.set.Empty() {
+					continue
+				}
+				t2, f2 := m.cond(x.Y, g, ctx)
+				tf = append(tf, t2...)
+				ff = append(ff, f2...)
+			}
+			return tf, ff
+		case token.EQL, token.NEQ:
+			l, r := x.X, x.Y
+			if !isByteVar(l, f) && isByteVar(r, f) {
+				l, r = r, l
+			}
+			// c == K / c != K
+			if isByteVar(l, f) {
+				if k, ok := m.constByte(r); ok {
+					eq, ne := "c=="+Of(k).String(), "c!="+Of(k).String()
+					in := f.with(f.set.And(Of(k)), eq)
+					out := f.with(f.set.Minus(Of(k)), ne)
+					if x.Op == token.EQL {
+						return []frame{in}, []frame{out}
+					}
+					return []frame{out}, []frame{in}
+				}
+			}
+			// comparison with nil
+			if tv, ok := info.Types[r]; ok && tv.IsNil() || func() bool { tv2, ok2 := info.Types[l]; return ok2 && tv2.IsNil() }() {
+				other := l
+				if tv, ok := info.Types[l]; ok && tv.IsNil() {
+					other = r
+				}
+				var isNil, notNil []frame
+				for _, ev := range m.expr(other, f, ctx) {
+					switch ev.v.k {
+					case vNil:
+						isNil = append(isNil, ev.f)
+					case vState, vFunc, vErr, vScanner, vPopped, vStepCur:
+						notNil = append(notNil, ev.f)
+					case vLibErr:
+						a, b := opaque(ev.f)
+						a[0].libErr = true
+						notNil = append(notNil, a...)
+						isNil = append(isNil, b...)
+					default:
+						a, b := opaque(ev.f)
+						notNil = append(notNil, a...)
+						isNil = append(isNil, b...)
+					}
+				}
+				if x.Op == token.EQL {
+					return isNil, notNil
+				}
+				return notNil, isNil
+			}
+			// s.data[s.curIndex-K] == 'x'  : data-dependent, records a read-back
+			if ix, ok := ast.Unparen(x.X).(*ast.IndexExpr); ok && m.isFieldOfS(ix.X, f, m.dataField) {
+				if pv := m.expr(ix.Index, f, ctx); len(pv) == 1 && pv[0].v.k == vPos {
+					if _, ok := m.constByte(x.Y); ok {
+						g := f.with(f.set, "")
+						g.eff = append(g.eff, Effect{Kind: EReadBack, Off: pv[0].v.off, Pos: ix.Pos()})
+						m.OpaquePreds["data[curIndex-k]"]++
+						return opaque(g)
+					}
+				}
+			}
+			// two known booleans / bool == const
+			if tl := info.TypeOf(x.X); tl != nil {
+				if b, ok := tl.Underlying().(*types.Basic); ok && b.Info()&types.IsBoolean != 0 {
+					lv, rv := m.expr(x.X, f, ctx), m.expr(x.Y, f, ctx)
+					if len(lv) == 1 && len(rv) == 1 && lv[0].v.k == vBool && rv[0].v.k == vBool {
+						same := lv[0].v.b == rv[0].v.b
+						if (x.Op == token.EQL) == same {
+							return []frame{f}, nil
+						}
+						return nil, []frame{f}
+					}
+				}
+			}
+			return opaque(f)
+		case token.GTR, token.GEQ, token.LSS, token.LEQ:
+			// len > 0 on a library length: data-dependent
+			return opaque(f)
+		}
+	case *ast.CallExpr:
+		callee := m.callee(x)
+		if callee != nil {
+			// IsNewLine(c) / isWhitespace(c)
+			if set, ok := m.predSets[callee]; ok && len(x.Args) == 1 && isByteVar(x.Args[0], f) {
+				return []frame{f.with(f.set.And(set), desc)}, []frame{f.with(f.set.Minus(set), "!"+desc)}
+			}
+		}
+		// a conversion bool(x) or any other call: by the value it yields
+		return byValue(x, f)
+	case *ast.Ident, *ast.SelectorExpr:
+		return byValue(e, f)
+	}
+	m.problem(e.Pos(), "unsupported condition %s", desc)
+	return opaque(f)
+}
+
+// ---------------------------------------------------------------- switches
+
+func (m *Machine) caseSet(e ast.Expr, f frame) (ByteSet, bool) {
+	e = ast.Unparen(e)
+	if k, ok := m.constByte(e); ok {
+		return Of(k), true
+	}
+	if call, ok := e.(*ast.CallExpr); ok && len(call.Args) == 1 {
+		if set, ok := m.helperSets[m.callee(call)]; ok {
+			if id, ok := ast.Unparen(call.Args[0]).(*ast.Ident); ok && f.env[m.Pkg.TypesInfo.ObjectOf(id)].k == vByte {
+				return set, true
+			}
+		}
+	}
+	return ByteSet{}, false
+}
+
+func (m *Machine) byteSwitch(s *ast.SwitchStmt, f frame, ctx *fnctx) (fall []frame, rets []result) {
+	rest := f.set
+	var deflt *ast.CaseClause
+	for _, c := range s.Body.List {
+		cc := c.(*ast.CaseClause)
+		if cc.List == nil {
+			deflt = cc
+			continue
+		}
+		var arm ByteSet
+		var names []string
+		for _, e := range cc.List {
+			set, ok := m.caseSet(e, f)
+			if !ok {
+				m.problem(e.Pos(), "unsupported case expression %s", types.ExprString(e))
+				continue
+			}
+			arm = arm.Or(set)
+			names = append(names, types.ExprString(e))
+		}
+		take := rest.And(arm)
+		rest = rest.Minus(arm)
+		if take.Empty() {
+			continue
+		}
+		fl, rs := m.caseBody(cc.Body, f.with(take, "case "+strings.Join(names, ",")), ctx)
+		fall = append(fall, fl...)
+		rets = append(rets, rs...)
+	}
+	if !rest.Empty() {
+		if deflt != nil {
+			fl, rs := m.caseBody(deflt.Body, f.with(rest, "default"), ctx)
+			fall = append(fall, fl...)
+			rets = append(rets, rs...)
+		} else {
+			fall = append(fall, f.with(rest, "no-case"))
+		}
+	}
+	return fall, rets
+}
+
+func (m *Machine) caseBody(body []ast.Stmt, f frame, ctx *fnctx) ([]frame, []result) {
+	for _, st := range body {
+		if br, ok := st.(*ast.BranchStmt); ok {
+			m.problem(br.Pos(), "unsupported branch statement %s in a case body", br.Tok)
+		}
+	}
+	return m.block(body, []frame{f}, ctx)
+}
+
+func (m *Machine) taglessSwitch(s *ast.SwitchStmt, f frame, ctx *fnctx) (fall []frame, rets []result) {
+	cur := []frame{f}
+	var deflt *ast.CaseClause
+	for _, c := range s.Body.List {
+		cc := c.(*ast.CaseClause)
+		if cc.List == nil {
+			deflt = cc
+			continue
+		}
+		// case a, b:  == a || b
+		var tAll, nextCur []frame
+		for _, g := range cur {
+			rest := []frame{g}
+			for _, e := range cc.List {
+				var r2 []frame
+				for _, h := range rest {
+					if h.set.Empty() {
+						continue
+					}
+					tf, ff := m.cond(e, h, ctx)
+					tAll = append(tAll, tf...)
+					r2 = append(r2, ff...)
+				}
+				rest = r2
+			}
+			nextCur = append(nextCur, rest...)
+		}
+		for _, tf := range tAll {
+			if tf.set.Empty() {
+				continue
+			}
+			fl, rs := m.caseBody(cc.Body, tf, ctx)
+			fall = append(fall, fl...)
+			rets = append(rets, rs...)
+		}
+		cur = nextCur
+	}
+	for _, g := range cur {
+		if g.set.Empty() {
+			continue
+		}
+		if deflt != nil {
+			fl, rs := m.caseBody(deflt.Body, g, ctx)
+			fall = append(fall, fl...)
+			rets = append(rets, rs...)
+		} else {
+			fall = append(fall, g)
+		}
+	}
+	return fall, rets
+}
+
+// isLibLen: a function or method of package scanner returning (length, error) that does not
+// touch the machine (no step/stack/finds/curIndex writes) and hands back what a library
+// method named Len answered: it asks the schema library for the length of the value that
+// starts at the read position.
 func (m *Machine) isLibLen(f *types.Func) bool {
 	if v, ok := m.libLen[f]; ok {
 		return v
 	}
 	res := false
+	m.libLen[f] = false
 	defer func() { m.libLen[f] = res }()
+	if f.Pkg() != m.Pkg.Types {
+		return false
+	}
 	sig := f.Type().(*types.Signature)
-	if sig.Recv() == nil || recvNamed(f) != m.scannerT || sig.Results().Len() != 2 || sig.Params().Len() != 0 {
+	if sig.Results().Len() != 2 {
 		return false
 	}
 	if b, ok := sig.Results().At(0).Type().Underlying().(*types.Basic); !ok || b.Info()&types.IsInteger == 0 {
 		return false
 	}
-	if !types.Identical(sig.Results().At(1).Type(), m.jerrPtr) {
+	et := sig.Results().At(1).Type()
+	if !types.Identical(et, m.jerrPtr) && !types.Identical(et, types.Universe.Lookup("error").Type()) {
+		return false
+	}
+	if _, isState := m.ByObj[f]; isState {
 		return false
 	}
 	fd := m.Prog.Decl(f)
 	if fd == nil {
 		return false
 	}
-	pure := true
+	pure, asksLib := true, false
 	ast.Inspect(fd.Body, func(n ast.Node) bool {
 		switch x := n.(type) {
 		case *ast.AssignStmt:
@@ -364,52 +1262,24 @@ func (m *Machine) isLibLen(f *types.Func) bool {
 		case *ast.IncDecStmt:
 			pure = false
 		case *ast.CallExpr:
-			if c := m.callee(x); c == m.found || c == m.foundAt || c == m.push || c == m.pop {
+			c := m.callee(x)
+			if c == m.found || c == m.foundAt || c == m.push || c == m.pop {
 				pure = false
+			}
+			if c != nil && c.Pkg() != m.Pkg.Types && c.Name() == "Len" {
+				asksLib = true
+			}
+			if c != nil && c != f && c.Pkg() == m.Pkg.Types && m.isLibLen(c) {
+				asksLib = true
 			}
 		}
 		return true
 	})
-	res = pure
-	m.FuncsSeen[f.Name()] = true
-	return res
-}
-
-// callEffect handles calls used as statements: found, foundAt, stepStack.Push.
-func (m *Machine) callEffect(call *ast.CallExpr, f *frame, ctx *fnctx) bool {
-	callee := m.callee(call)
-	switch callee {
-	case m.found:
-		if ev, ok := m.eventConst(call.Args[0]); ok {
-			f.eff = append(f.eff, Effect{Kind: EEvent, Ev: ev, Off: 0, Pos: call.Pos()})
-			m.Counts["event"]++
-			return true
-		}
-	case m.foundAt:
-		k, ok1 := m.curMinus(call.Args[0], ctx)
-		ev, ok2 := m.eventConst(call.Args[1])
-		if ok1 && ok2 {
-			f.eff = append(f.eff, Effect{Kind: EEvent, Ev: ev, Off: k, Pos: call.Pos()})
-			m.Counts["event"]++
-			return true
-		}
-	case m.push:
-		sel, ok := call.Fun.(*ast.SelectorExpr)
-		if !ok || !m.isField(sel.X, ctx, m.stackField) {
-			return false
-		}
-		if sid, ok := m.stateOf(call.Args[0]); ok {
-			f.eff = append(f.eff, Effect{Kind: EPush, Fn: sid, Pos: call.Pos()})
-			m.Counts["push"]++
-			return true
-		}
-		if m.isField(call.Args[0], ctx, m.stepField) {
-			f.eff = append(f.eff, Effect{Kind: EPushCur, Pos: call.Pos()})
-			m.Counts["push"]++
-			return true
-		}
+	res = pure && asksLib
+	if res {
+		m.FuncsSeen[f.Name()] = true
 	}
-	return false
+	return res
 }
 
 func (m *Machine) eventConst(e ast.Expr) (string, bool) {
@@ -427,121 +1297,6 @@ func (m *Machine) eventConst(e ast.Expr) (string, bool) {
 		}
 	}
 	return "", false
-}
-
-// ret interprets a return statement.
-func (m *Machine) ret(s *ast.ReturnStmt, f frame, ctx *fnctx) []Path {
-	info := m.Pkg.TypesInfo
-	if len(s.Results) != 1 {
-		m.problem(s.Pos(), "return with %d results in a step function", len(s.Results))
-		return nil
-	}
-	r := ast.Unparen(s.Results[0])
-	if id, ok := r.(*ast.Ident); ok {
-		if id.Name == "nil" && info.ObjectOf(id) == types.Universe.Lookup("nil") {
-			return []Path{m.finish(f, OutNil, s.Pos())}
-		}
-		if ctx.errVars[info.ObjectOf(id)] {
-			if !f.libErr {
-				m.problem(s.Pos(), "library error variable returned outside its != nil guard")
-			}
-			return []Path{m.finish(f, OutErr, s.Pos())}
-		}
-		m.problem(s.Pos(), "return of unsupported identifier %s", id.Name)
-		return nil
-	}
-	call, ok := r.(*ast.CallExpr)
-	if !ok {
-		m.problem(s.Pos(), "unsupported return expression")
-		return nil
-	}
-	// return s.step(s, c): dynamic same-byte redispatch
-	if m.isField(call.Fun, ctx, m.stepField) {
-		if !m.passesSC(call, ctx, 0) {
-			m.problem(s.Pos(), "s.step called with unexpected arguments")
-		}
-		m.Counts["redispatch-dynamic"]++
-		return []Path{m.finish(f, OutRedispatch, s.Pos())}
-	}
-	callee := m.callee(call)
-	if callee == nil {
-		m.problem(s.Pos(), "return of a call through an unresolved function value")
-		return nil
-	}
-	if m.isErrorOnly(callee) {
-		return []Path{m.finish(f, OutErr, s.Pos())}
-	}
-	// static same-byte redispatch / helper inlining
-	fd := m.Prog.Decl(callee)
-	if fd == nil || callee.Pkg() != m.Pkg.Types {
-		m.problem(s.Pos(), "return of a call to %s which is outside package scanner", callee.Name())
-		return nil
-	}
-	sig := callee.Type().(*types.Signature)
-	if sig.Results().Len() != 1 || !types.Identical(sig.Results().At(0).Type(), m.jerrPtr) {
-		m.problem(s.Pos(), "return of a call to %s with an unexpected result type", callee.Name())
-		return nil
-	}
-	// the callee's byte parameter (if any and if it is used) must receive our c
-	off := 0
-	if sig.Recv() == nil {
-		off = 1 // first parameter is the scanner
-		if len(call.Args) == 0 || !m.isS(call.Args[0], ctx) {
-			m.problem(s.Pos(), "call to %s does not pass the scanner first", callee.Name())
-			return nil
-		}
-	} else {
-		sel, ok := call.Fun.(*ast.SelectorExpr)
-		if !ok || !m.isS(sel.X, ctx) {
-			m.problem(s.Pos(), "method %s called on something other than the scanner", callee.Name())
-			return nil
-		}
-	}
-	if !m.passesSC(call, ctx, off) {
-		m.problem(s.Pos(), "call to %s passes a byte other than the current input byte", callee.Name())
-		return nil
-	}
-	if sid, isState := m.ByObj[callee]; isState {
-		m.Counts["redispatch-static"]++
-		if m.curState != nil {
-			dup := false
-			for _, x := range m.curState.Inlines {
-				dup = dup || x == sid
-			}
-			if !dup {
-				m.curState.Inlines = append(m.curState.Inlines, sid)
-			}
-		}
-	}
-	m.FuncsSeen[callee.Name()] = true
-	return m.evalFunc(fd, f.set, &f, true, "→"+callee.Name())
-}
-
-func (m *Machine) isS(e ast.Expr, ctx *fnctx) bool {
-	id, ok := ast.Unparen(e).(*ast.Ident)
-	return ok && ctx.sObj != nil && m.Pkg.TypesInfo.ObjectOf(id) == ctx.sObj
-}
-
-// passesSC checks that every byte-typed argument from index off on is the current byte.
-func (m *Machine) passesSC(call *ast.CallExpr, ctx *fnctx, off int) bool {
-	for i, a := range call.Args {
-		tv, ok := m.Pkg.TypesInfo.Types[a]
-		if !ok {
-			return false
-		}
-		if isByte(tv.Type) && tv.Value == nil {
-			id, ok := ast.Unparen(a).(*ast.Ident)
-			if !ok || ctx.cObj == nil || m.Pkg.TypesInfo.ObjectOf(id) != ctx.cObj {
-				return false
-			}
-		}
-		if p, ok := tv.Type.(*types.Pointer); ok && p.Elem() == m.scannerT {
-			if !m.isS(a, ctx) || (i != 0 && off == 1) {
-				return false
-			}
-		}
-	}
-	return true
 }
 
 // isErrorOnly: every return of f constructs an error (a call to jerr.NewJApiError or
@@ -638,124 +1393,6 @@ func (m *Machine) isErrorOnly(f *types.Func) bool {
 	return false
 }
 
-// ---------------------------------------------------------------- conditions
-
-// cond splits frame f on a boolean expression into the frames where it is true and
-// those where it is false (several each, because && and || short-circuit: the effects
-// of the right operand exist only on the sub-frames that evaluated it).
-func (m *Machine) cond(e ast.Expr, f frame, ctx *fnctx) (tf, ff []frame) {
-	info := m.Pkg.TypesInfo
-	e = ast.Unparen(e)
-	desc := types.ExprString(e)
-	opaque := func(g frame) ([]frame, []frame) {
-		a := g.with(g.set, desc)
-		a.may = true
-		b := g.with(g.set, "!("+desc+")")
-		b.may = true
-		return []frame{a}, []frame{b}
-	}
-	switch x := e.(type) {
-	case *ast.UnaryExpr:
-		if x.Op == token.NOT {
-			a, b := m.cond(x.X, f, ctx)
-			return b, a
-		}
-	case *ast.BinaryExpr:
-		switch x.Op {
-		case token.LAND:
-			t1, f1 := m.cond(x.X, f, ctx)
-			ff = append(ff, f1...)
-			for _, g := range t1 {
-				if g.set.Empty() {
-					continue
-				}
-				t2, f2 := m.cond(x.Y, g, ctx)
-				tf = append(tf, t2...)
-				ff = append(ff, f2...)
-			}
-			return tf, ff
-		case token.LOR:
-			t1, f1 := m.cond(x.X, f, ctx)
-			tf = append(tf, t1...)
-			for _, g := range f1 {
-				if g.set.Empty() {
-					continue
-				}
-				t2, f2 := m.cond(x.Y, g, ctx)
-				tf = append(tf, t2...)
-				ff = append(ff, f2...)
-			}
-			return tf, ff
-		case token.EQL, token.NEQ:
-			// c == K / c != K
-			if id, ok := ast.Unparen(x.X).(*ast.Ident); ok && ctx.cObj != nil && info.ObjectOf(id) == ctx.cObj {
-				if k, ok := m.constByte(x.Y); ok {
-					eq, ne := "c=="+Of(k).String(), "c!="+Of(k).String()
-					in := f.with(f.set.And(Of(k)), eq)
-					out := f.with(f.set.Minus(Of(k)), ne)
-					if x.Op == token.EQL {
-						return []frame{in}, []frame{out}
-					}
-					return []frame{out}, []frame{in}
-				}
-			}
-			// je != nil on a library error variable
-			if id, ok := ast.Unparen(x.X).(*ast.Ident); ok && ctx.errVars[info.ObjectOf(id)] {
-				if nid, ok := ast.Unparen(x.Y).(*ast.Ident); ok && nid.Name == "nil" {
-					a, b := opaque(f)
-					if x.Op == token.NEQ {
-						a[0].libErr = true
-					} else {
-						b[0].libErr = true
-					}
-					return a, b
-				}
-			}
-			// s.data[s.curIndex-K] == 'x'  : data-dependent, records a read-back
-			if ix, ok := ast.Unparen(x.X).(*ast.IndexExpr); ok && m.isField(ix.X, ctx, m.dataField) {
-				if k, ok := m.curMinus(ix.Index, ctx); ok {
-					if _, ok := m.constByte(x.Y); ok {
-						g := f.with(f.set, "")
-						g.eff = append(g.eff, Effect{Kind: EReadBack, Off: k, Pos: ix.Pos()})
-						m.OpaquePreds["data[curIndex-k]"]++
-						return opaque(g)
-					}
-				}
-			}
-		case token.GTR:
-			// len > 0 on a library length variable
-			if id, ok := ast.Unparen(x.X).(*ast.Ident); ok && ctx.lenVars[info.ObjectOf(id)] {
-				if k, ok := m.constByte(x.Y); ok && k == 0 {
-					return opaque(f)
-				}
-			}
-		}
-	case *ast.CallExpr:
-		callee := m.callee(x)
-		if callee != nil {
-			// IsNewLine(c) / isWhitespace(c)
-			if set, ok := m.predSets[callee]; ok && len(x.Args) == 1 {
-				if id, ok := ast.Unparen(x.Args[0]).(*ast.Ident); ok && ctx.cObj != nil && info.ObjectOf(id) == ctx.cObj {
-					return []frame{f.with(f.set.And(set), desc)}, []frame{f.with(f.set.Minus(set), "!"+desc)}
-				}
-			}
-			// opaque predicate: a bool method of the scanner with no parameters that does not touch the machine
-			sig := callee.Type().(*types.Signature)
-			if sig.Recv() != nil && recvNamed(callee) == m.scannerT && sig.Params().Len() == 0 && sig.Results().Len() == 1 {
-				if b, ok := sig.Results().At(0).Type().Underlying().(*types.Basic); ok && b.Kind() == types.Bool {
-					if sel, ok := x.Fun.(*ast.SelectorExpr); ok && m.isS(sel.X, ctx) && m.isPureMethod(callee) {
-						m.OpaquePreds[callee.Name()]++
-						m.FuncsSeen[callee.Name()] = true
-						return opaque(f)
-					}
-				}
-			}
-		}
-	}
-	m.problem(e.Pos(), "unsupported condition %s", desc)
-	return opaque(f)
-}
-
 var pureMemo = map[*types.Func]bool{}
 
 func (m *Machine) isPureMethod(f *types.Func) bool {
@@ -789,125 +1426,6 @@ func (m *Machine) isPureMethod(f *types.Func) bool {
 	}
 	pureMemo[f] = res
 	return res
-}
-
-// ---------------------------------------------------------------- switches
-
-func (m *Machine) caseSet(e ast.Expr, ctx *fnctx) (ByteSet, bool) {
-	e = ast.Unparen(e)
-	if k, ok := m.constByte(e); ok {
-		return Of(k), true
-	}
-	if call, ok := e.(*ast.CallExpr); ok && len(call.Args) == 1 {
-		if set, ok := m.helperSets[m.callee(call)]; ok {
-			if id, ok := ast.Unparen(call.Args[0]).(*ast.Ident); ok && ctx.cObj != nil && m.Pkg.TypesInfo.ObjectOf(id) == ctx.cObj {
-				return set, true
-			}
-		}
-	}
-	return ByteSet{}, false
-}
-
-func (m *Machine) byteSwitch(s *ast.SwitchStmt, f frame, ctx *fnctx) (fall []frame, done []Path) {
-	rest := f.set
-	var deflt *ast.CaseClause
-	for _, c := range s.Body.List {
-		cc := c.(*ast.CaseClause)
-		if cc.List == nil {
-			deflt = cc
-			continue
-		}
-		var arm ByteSet
-		var names []string
-		for _, e := range cc.List {
-			set, ok := m.caseSet(e, ctx)
-			if !ok {
-				m.problem(e.Pos(), "unsupported case expression %s", types.ExprString(e))
-				continue
-			}
-			arm = arm.Or(set)
-			names = append(names, types.ExprString(e))
-		}
-		take := rest.And(arm)
-		rest = rest.Minus(arm)
-		if take.Empty() {
-			continue
-		}
-		fl, dn := m.caseBody(cc.Body, f.with(take, "case "+strings.Join(names, ",")), ctx)
-		fall = append(fall, fl...)
-		done = append(done, dn...)
-	}
-	if !rest.Empty() {
-		if deflt != nil {
-			fl, dn := m.caseBody(deflt.Body, f.with(rest, "default"), ctx)
-			fall = append(fall, fl...)
-			done = append(done, dn...)
-		} else {
-			fall = append(fall, f.with(rest, "no-case"))
-		}
-	}
-	return fall, done
-}
-
-func (m *Machine) caseBody(body []ast.Stmt, f frame, ctx *fnctx) ([]frame, []Path) {
-	for _, st := range body {
-		if br, ok := st.(*ast.BranchStmt); ok {
-			m.problem(br.Pos(), "unsupported branch statement %s in a case body", br.Tok)
-		}
-	}
-	return m.block(body, []frame{f}, ctx)
-}
-
-func (m *Machine) taglessSwitch(s *ast.SwitchStmt, f frame, ctx *fnctx) (fall []frame, done []Path) {
-	cur := []frame{f}
-	var deflt *ast.CaseClause
-	for _, c := range s.Body.List {
-		cc := c.(*ast.CaseClause)
-		if cc.List == nil {
-			deflt = cc
-			continue
-		}
-		// case a, b:  == a || b
-		var tAll, nextCur []frame
-		for _, g := range cur {
-			rest := []frame{g}
-			for _, e := range cc.List {
-				var r2 []frame
-				for _, h := range rest {
-					if h.set.Empty() {
-						continue
-					}
-					tf, ff := m.cond(e, h, ctx)
-					tAll = append(tAll, tf...)
-					r2 = append(r2, ff...)
-				}
-				rest = r2
-			}
-			nextCur = append(nextCur, rest...)
-		}
-		for _, tf := range tAll {
-			if tf.set.Empty() {
-				continue
-			}
-			fl, dn := m.caseBody(cc.Body, tf, ctx)
-			fall = append(fall, fl...)
-			done = append(done, dn...)
-		}
-		cur = nextCur
-	}
-	for _, g := range cur {
-		if g.set.Empty() {
-			continue
-		}
-		if deflt != nil {
-			fl, dn := m.caseBody(deflt.Body, g, ctx)
-			fall = append(fall, fl...)
-			done = append(done, dn...)
-		} else {
-			fall = append(fall, g)
-		}
-	}
-	return fall, done
 }
 
 // Describe renders a path for reports.
